@@ -97,6 +97,16 @@ def _std_grid(rng: Rng, fam, m):
 EXHAUSTIVE = dict(quick=False, thorough=True)
 
 
+LABEL_SETS = [None, None, ("t", "s"), ("z", "a"), ("input_dim_1", "input_dim_0"), ("x2", "x1"), ("b", "a")]
+
+
+def _labels(case, k):
+    """Dimension labels of the sampling points: the default `input_dim_i`, or labels whose alphabetical order is not
+    the insertion order (the order of the dimensions is the insertion order, never the sorted one)."""
+    ls = case.get("labels")
+    return [f"input_dim_{i}" for i in range(k)] if not ls else list(ls)[:k]
+
+
 def _multi_case(rng: Rng):
     """Wrapper chain MultivariateBasis -> Basis -> _simulate_basis -> family: components of different dimension
     (1-D string names and 2-D tuple names), every option non-default some of the time."""
@@ -119,7 +129,7 @@ def _multi_case(rng: Rng):
     for c in comps:
         c["x"] = [[rs(v) for v in _std_grid(rng, f, rng.randint(3, 6))] for f in c["fam"]]
     bsx = [F(v) for c in comps for f, x in zip(c["fam"], c["x"]) if f == "bsplines" for v in x]
-    case = dict(kind="multi", comps=comps, p=p, add=add, norm=rng.random() < 0.4)
+    case = dict(kind="multi", comps=comps, p=p, add=add, norm=rng.random() < 0.4, labels=rng.choice(LABEL_SETS))
     if rng.random() < 0.5:  # explicit domain, wider than every B-spline grid
         case["dmin"] = rs(min(bsx) - rng.choice([0, Fraction(1, 2), 1]))
         case["dmax"] = rs(max(bsx) + rng.choice([0, Fraction(1, 4), 2]))
@@ -156,7 +166,7 @@ def gen_cases(rng: Rng, tier):
         for f1 in FAMILIES:
             for f2 in FAMILIES:
                 for add in (True, False):
-                    yield dict(kind="basis2", fam=[f1, f2], n=[3, 4], p=2, add=add, norm=False,
+                    yield dict(kind="basis2", fam=[f1, f2], n=[3, 4], p=2, add=add, norm=False, labels=("t", "s") if add else None,
                                x1=[rs(v) for v in _std_grid(rng, f1, 4)], x2=[rs(v) for v in _std_grid(rng, f2, 5)])
                     if f1 == f2:  # isotropic sizes, equal grid lengths, different grid values
                         g1, g2 = _std_grid(rng, f1, 5, ), _std_grid(rng, f1, 5)
@@ -209,7 +219,8 @@ def gen_cases(rng: Rng, tier):
             fam = rng.choice(FAMILIES)
             nf = rng.randint(1, 12)
             m = rng.randint(5, 20)
-            c = dict(kind=kind, fam=fam, n=nf, add=rng.random() < 0.6, norm=rng.random() < 0.4, x=[rs(v) for v in _std_grid(rng, fam, m)])
+            c = dict(kind=kind, fam=fam, n=nf, add=rng.random() < 0.6, norm=rng.random() < 0.4, x=[rs(v) for v in _std_grid(rng, fam, m)],
+                     labels=rng.choice(LABEL_SETS))
             if fam == "bsplines":
                 p = rng.randint(1, 4)
                 c.update(p=p, n=max(nf, p + 1))
@@ -236,7 +247,7 @@ def gen_cases(rng: Rng, tier):
             while iso and g1 == g2:
                 g2 = _std_grid(rng, f2, m2)
             c = dict(kind=kind, fam=[f1, f2], n=[n1, n2], p=p, add=rng.random() < 0.6, norm=rng.random() < 0.3,
-                     x1=[rs(v) for v in g1], x2=[rs(v) for v in g2], iso=iso)
+                     x1=[rs(v) for v in g1], x2=[rs(v) for v in g2], iso=iso, labels=rng.choice(LABEL_SETS))
             if "bsplines" in (f1, f2) and rng.random() < 0.5:  # explicit domain through the n-D Basis wrapper
                 bsx = [v for f, g in ((f1, g1), (f2, g2)) if f == "bsplines" for v in g]
                 c.update(dmin=rs(min(bsx) - rng.choice([0, Fraction(1, 2), 1])), dmax=rs(max(bsx) + rng.choice([0, Fraction(1, 4), 2])))
@@ -332,7 +343,7 @@ def run_impl(case):
             from FDApy.representation.argvals import DenseArgvals
             from FDApy.representation.basis import Basis
 
-            arg = DenseArgvals({"input_dim_0": x})
+            arg = DenseArgvals({_labels(case, 1)[0]: x})
             b = Basis(name=fam, n_functions=case["n"], argvals=arg, is_normalized=case["norm"], add_intercept=case["add"], **kw)
             val = b.values
             raw = _sim(fam, x, case["n"], False, case["add"], **kw)
@@ -387,7 +398,8 @@ def run_impl(case):
         if "dmin" in case:
             kw.update(domain_min=float(F(case["dmin"])), domain_max=float(F(case["dmax"])))
         if True:
-            arg = DenseArgvals({"input_dim_0": x1, "input_dim_1": x2})
+            lb = _labels(case, 2)
+            arg = DenseArgvals({lb[0]: x1, lb[1]: x2})
             b = Basis(name=(f1, f2), n_functions=(n1, n2), argvals=arg, is_normalized=case["norm"], add_intercept=case["add"], **kw)
             out["shape"] = list(b.values.shape)
             out["v"] = np.asarray(b.values).reshape(b.values.shape[0], -1).tolist()
@@ -401,7 +413,7 @@ def run_impl(case):
         comps = case["comps"]
         names = [c["fam"][0] if len(c["fam"]) == 1 else tuple(c["fam"]) for c in comps]
         nfs = [c["n"][0] if len(c["n"]) == 1 else tuple(c["n"]) for c in comps]
-        args = [DenseArgvals({f"input_dim_{k}": _arr(x) for k, x in enumerate(c["x"])}) for c in comps]
+        args = [DenseArgvals({lb: _arr(x) for lb, x in zip(_labels(case, len(c["x"])), c["x"])}) for c in comps]
         mb = MultivariateBasis(name=names, n_functions=nfs, argvals=args, is_normalized=case["norm"], add_intercept=case["add"], **kw)
         out["n_functional"] = int(mb.n_functional)
         out["shapes"] = [list(np.shape(c.values)) for c in mb.data]
@@ -866,6 +878,8 @@ def classify(case, impl):
     if case["kind"] == "multi":
         tags.append("multi:dims=" + "+".join(str(len(c["n"])) for c in case["comps"]))
         tags.append(f"multi:degree={case.get('p')},domain={'explicit' if 'dmin' in case else 'default'}")
+    if case.get("labels"):
+        tags.append("labels:not-in-sorted-order")
     if case.get("iso"):
         tags.append("2d-isotropic-equal-length-different-grids")
     if "p" in case and case["kind"] in ("bs", "sim"):
